@@ -273,6 +273,65 @@ Definition avg_trans (ts : list (xform F)) : vec3 F :=
 Definition avg_scale (ts : list (xform F)) : F :=
   sum_scalar (map scl ts) / fnat (length ts).
 
+(* ---- what RotMatToVec's half-turn case reads (Object3d.cpp:62-64 before the repair of
+   C20-rotmattovec-symmetric-half-turn, 67-69 after): x = (m[0][0] - cosang) * 0.5, ... (square roots
+   and the normalisation follow).  After the repair this case is also taken when the skew part
+   [rot_axis_raw] vanishes although cosang > -1. ---- *)
+Definition half_turn_sq (m : mat3 F) : vec3 F :=
+  let c := rot_cosang m in
+  V3 ((r00 m - c) / (1 + 1)) ((r11 m - c) / (1 + 1)) ((r22 m - c) / (1 + 1)).
+
+(* ---- CalcAverageRotation (Object3d.cpp:88-117) and CalcMedianRotation (165-192): the two-pass
+   scheme.  RotMatToVec / RotVecToMat (sqrt, sin, cos, asin, acos) and CalcMedianOfFloats
+   (std::nth_element) are not modelled: they are the parameters [m2v], [v2m], [med] of the scheme.
+   [avg_rotation] is the REPAIRED code (fix C20-average-rotation-overcorrects): sum2 is divided by n
+   like sum1; [avg_rotation_unrepaired] is the code before the repair. ---- *)
+Section TwoPass.
+Variable m2v : mat3 F -> vec3 F.
+Variable v2m : vec3 F -> mat3 F.
+Variable med : list F -> F.
+
+Definition v3_divn (v : vec3 F) (n : F) : vec3 F := V3 (vx v / n) (vy v / n) (vz v / n).
+
+Definition avg_rotation (rots : list (mat3 F)) : mat3 F :=
+  match rots with
+  | [] => m3_id
+  | _ =>
+    let n := fnat (length rots) in
+    let sum1 := v3_divn (sum_vec (map m2v rots)) n in
+    let base := v2m sum1 in
+    let baseinv := m3_transpose base in
+    let sum2 := v3_divn (sum_vec (map (fun r => m2v (m3_mul baseinv r)) rots)) n in
+    m3_mul base (v2m sum2)
+  end.
+
+Definition avg_rotation_unrepaired (rots : list (mat3 F)) : mat3 F :=
+  match rots with
+  | [] => m3_id
+  | _ =>
+    let n := fnat (length rots) in
+    let sum1 := v3_divn (sum_vec (map m2v rots)) n in
+    let base := v2m sum1 in
+    let baseinv := m3_transpose base in
+    let sum2 := sum_vec (map (fun r => m2v (m3_mul baseinv r)) rots) in
+    m3_mul base (v2m sum2)
+  end.
+
+(* CalcMedianOfVector3: component-wise *)
+Definition med_vec (l : list (vec3 F)) : vec3 F := V3 (med (map vx l)) (med (map vy l)) (med (map vz l)).
+
+Definition median_rotation (rots : list (mat3 F)) : mat3 F :=
+  match rots with
+  | [] => m3_id
+  | _ =>
+    let n := fnat (length rots) in
+    let sum1 := v3_divn (sum_vec (map m2v rots)) n in
+    let base := v2m sum1 in
+    let baseinv := m3_transpose base in
+    m3_mul base (v2m (med_vec (map (fun r => m2v (m3_mul baseinv r)) rots)))
+  end.
+End TwoPass.
+
 End Model.
 
 Arguments v3_zero {F}. Arguments v3_add {F}. Arguments v3_sub {F}. Arguments v3_scale {F}.
@@ -286,6 +345,8 @@ Arguments rodrigues_gen {F}. Arguments rodrigues {F}. Arguments rodrigues_alt {F
 Arguments rot_cosang {F}. Arguments rot_axis_raw {F}.
 Arguments fnat {F}. Arguments sum_vec {F}. Arguments sum_scalar {F}.
 Arguments avg_trans {F}. Arguments avg_scale {F}.
+Arguments half_turn_sq {F}. Arguments v3_divn {F}. Arguments avg_rotation {F}.
+Arguments avg_rotation_unrepaired {F}. Arguments med_vec {F}. Arguments median_rotation {F}.
 
 (* ---- the executed instance: canonical rationals ---- *)
 From Coq Require Import QArith Qcanon.
